@@ -241,7 +241,7 @@ class Model:
             from .inventory import FUNCTIONS, MODULE_NAMES
         except ImportError:
             return
-        from .inline import MAX_ROUNDS, dissolve_parameter_objects, fold_after_inlining, propagate_local_aliases, desugar_ifexp, desugar_match, desugar_exitstacks, desugar_partials_and_extends, desugar_return_all_any, dissolve_new_cm_classes, drop_absorbed_helpers, erase_new_namedtuples, inline_new_helpers, scalarise_local_dicts, unroll_new_tables, propagate_new_constants
+        from .inline import MAX_ROUNDS, dissolve_attribute_records, dissolve_parameter_objects, fold_after_inlining, propagate_local_aliases, desugar_ifexp, desugar_match, desugar_exitstacks, desugar_partials_and_extends, desugar_return_all_any, dissolve_new_cm_classes, drop_absorbed_helpers, erase_new_namedtuples, inline_new_helpers, scalarise_local_dicts, unroll_new_tables, propagate_new_constants
 
         # functions whose source differs from the pinned tree (digest of ast.dump): only those are rewritten by the
         # statement-level normalisations that would otherwise also touch pinned code
@@ -268,6 +268,9 @@ class Model:
 
         self.records_dissolved = dissolve_parameter_objects(self, MODULE_NAMES)
         if self.records_dissolved:
+            self._reindex()
+        self.attr_records_dissolved = dissolve_attribute_records(self, MODULE_NAMES)
+        if self.attr_records_dissolved:
             self._reindex()
         self.aliases_propagated = propagate_local_aliases(self, self.changed_functions) if self.changed_functions else []
         if self.aliases_propagated:
@@ -296,6 +299,9 @@ class Model:
             self.inlined += changed
             self._reindex()
         if self.inlined:
+            # records that only became visible as constructor arguments once a factory was inlined
+            if dissolve_attribute_records(self, MODULE_NAMES):
+                self._reindex()
             if fold_after_inlining(self, self.inlined):
                 self._reindex()
             self.absorbed = drop_absorbed_helpers(self, FUNCTIONS)
